@@ -38,8 +38,8 @@ package rpc
 //@ func Conn.shutdown -> err
 //@   trusted
 //@   requires c != nil && held(&c.mu)
-//@   modifies *
-//@   ensures !held(&c.mu)
+//@   modifies * g:held
+//@   ensures lockdrop(&c.mu)
 
 //@ func Conn.sendMessage -> err
 //@   trusted
